@@ -316,6 +316,19 @@ def sideOrReorg (s : NState) (b : Block) : NState × Outcome :=
     let r := reorganize s (reorgPlan s b).1 (reorgPlan s b).2
     if r.2 then (cleanPool r.1, .main) else (r.1, .err)
 
+/-- the exported `BlockChain.ReorganizeChain(block)` (caller: BlockPool.CheckConfirmedBlockOnFork): make an indexed
+    block the tip without comparing work. `guardHeight` is the height handed to `IsIrreversible` together with the
+    number of blocks to detach. Result: new state, and `false` when the block is not in the index or an attach failed. -/
+def reorgToWith (guardHeight : NState → Block → Nat) (s : NState) (id : Nat) : NState × Bool :=
+  match s.known.find? (·.id == id) with
+  | none => (s, false)
+  | some b =>
+    if isIrreversible s (guardHeight s b) (reorgPlan s b).1 then (s, true)
+    else reorganize s (reorgPlan s b).1 (reorgPlan s b).2
+
+/-- as the code: the guard is asked with the height of the best chain -/
+def reorgTo : NState → Nat → NState × Bool := reorgToWith fun s _ => s.tip.height
+
 /-- `connectBestChain`, block extending the tip -/
 def extendTip (s : NState) (b : Block) : NState × Outcome :=
   match connectTip s b with
